@@ -33,6 +33,7 @@ def _f32bits(x):
 class _RecCf:
     def __init__(self):
         self.sent = []
+        self.snap = []
         self.cbs = []
 
     def add_port_callback(self, port, cb):
@@ -40,9 +41,31 @@ class _RecCf:
 
     def send_packet(self, pk, expected_reply=(), resend=False, timeout=0.2):
         self.sent.append(pk)
+        self.snap.append((pk, pk.get_header(), bytes(pk.data)))
 
 
-def _make(version, xmode, out):
+def _negotiate(cf, cbs, version, out):
+    from cflib.crtp.crtpstack import CRTPPacket
+    fetched = []
+    n0 = len(cf.sent)
+    cf.platform.fetch_platform_informations(lambda: fetched.append(1))
+    pk = CRTPPacket()
+    pk.set_header(15, 1)
+    if version < 0:
+        pk.data = b'some other firmware\0'
+        cbs[15](pk)
+    else:
+        pk.data = b'Bitcraze Crazyflie\0'
+        cbs[15](pk)
+        pk2 = CRTPPacket()
+        pk2.set_header(13, 1)
+        pk2.data = bytes([0, version])
+        cbs[13](pk2)
+    if fetched != [1] or cf.platform.get_protocol_version() != version:
+        out.fail('nego:result', 'fetched=%r version=%r want %r' % (fetched, cf.platform.get_protocol_version(), version))
+
+
+def _make(version, xmode, out, prev_version=None):
     from cflib.crazyflie.commander import Commander
     from cflib.crazyflie.extpos import Extpos
     from cflib.crazyflie.high_level_commander import HighLevelCommander
@@ -78,7 +101,12 @@ def _make(version, xmode, out):
         cbs[13](pk2)
     if fetched != [1] or cf.platform.get_protocol_version() != version:
         out.fail('nego:result', 'fetched=%r version=%r want %r' % (fetched, cf.platform.get_protocol_version(), version))
+    if prev_version is not None:
+        # the same Crazyflie object had been connected to another firmware before: negotiate again
+        _negotiate(cf, cbs, prev_version, out)
+        _negotiate(cf, cbs, version, out)
     del cf.sent[:]
+    del cf.snap[:]
     return cf
 
 
@@ -283,7 +311,18 @@ def run_command(case):
     import warnings
     out = Outcome()
     cmd, a, version, xmode = case['cmd'], _thaw(case['args']), case['version'], case['xmode']
-    cf = _make(version, xmode, out)
+    cf = _make(version, xmode, out, case.get('prev_version'))
+    # commands issued earlier on the same objects must not be disturbed by the later ones
+    pre_snap = []
+    for pc in case.get('pre', []):
+        try:
+            with warnings.catch_warnings(), contextlib.redirect_stdout(io.StringIO()):
+                warnings.simplefilter('ignore')
+                _call(cf, pc['cmd'], _thaw(pc['args']))
+        except Exception:  # noqa
+            pass
+    pre_snap = list(cf.snap)
+    del cf.sent[:]
     exp = _expect(cmd, a, version, xmode)
     out.feat('cmd-' + cmd, 'v%d' % version)
     flat = _flatten(a)
@@ -335,6 +374,15 @@ def run_command(case):
         raised = e
     sent = cf.sent
     desc = '%s%r v=%d xmode=%r' % (cmd, tuple(a), version, xmode)
+    for (pk_, hdr_, data_) in pre_snap:
+        if pk_.get_header() != hdr_ or bytes(pk_.data) != data_:
+            out.fail('cmd:earlier-packet-mutated', '%s: a packet handed to the link by an earlier command (%s) changed from %s to %s' % (
+                desc, [p['cmd'] for p in case.get('pre', [])], data_.hex(), bytes(pk_.data).hex()))
+            break
+    if case.get('pre'):
+        out.feat('with-earlier-commands')
+    if case.get('prev_version') is not None:
+        out.feat('renegotiated')
     if exp[0] == 'raise' or unrepresentable:
         out.feat('expect-raise')
         if raised is None:
@@ -485,9 +533,10 @@ def _tolist(t):
     return [list(v) if isinstance(v, (list, tuple)) else v for v in t]
 
 
-command_strategy = st.sampled_from(WEIGHTED).flatmap(
-    lambda c: st.tuples(st.just(c), _args(c), st.sampled_from(VERSIONS), st.booleans())
-).map(lambda t: {'cmd': t[0], 'args': _tolist(t[1]), 'version': t[2], 'xmode': t[3]})
+_one = st.sampled_from(WEIGHTED).flatmap(lambda c: st.tuples(st.just(c), _args(c))).map(lambda t: {'cmd': t[0], 'args': _tolist(t[1])})
+command_strategy = st.tuples(_one, st.sampled_from(VERSIONS), st.booleans(), st.one_of(st.just([]), st.just([]), st.lists(_one, min_size=1, max_size=2)),
+                             st.one_of(st.none(), st.none(), st.sampled_from(VERSIONS))) \
+    .map(lambda t: {'cmd': t[0]['cmd'], 'args': t[0]['args'], 'version': t[1], 'xmode': t[2], 'pre': t[3], 'prev_version': t[4]})
 
 
 # ------------------------------------------------------------------ header bijection
